@@ -9,8 +9,8 @@ ALL = [f"C{n:02d}" for n in range(1, 21)]
 
 NOTE = ("Trusted: Lean 4.33 kernel + Mathlib; axioms ⊆ {propext, Classical.choice, Quot.sound} audited "
         "per run; the hand-written model is tied to /repo by this run's correspondence / AST extraction "
-        "(harness code is trusted); ℝ-theorems ignore rounding, parametric theorems assume IEEE '<' is a "
-        "strict order; CPython/NumPy/numba/LLVM/SciPy modelled, not verified.")
+        "(harness code is trusted); ℝ-theorems ignore rounding; irreflexivity, transitivity and well-foundedness of IEEE '<' "
+        "are proved for Lean's Float model, negative transitivity (NaN-free) stays a hypothesis of C04; CPython/NumPy/numba/LLVM/SciPy modelled, not verified.")
 
 CLAIMS = {
     "C07": dict(
@@ -22,7 +22,11 @@ CLAIMS = {
               "Tied to the code by regenerated AST schema facts (the only store into tt in sweep is min(old, …); "
               "schedule equals the model's) re-checked in Lean each run and validated on interpreter-mode traces; "
               "the implementation is additionally swept for nsweep=1..K (bit-level monotonicity, fixed point). "
-              "Existence of the fixed point is measured, not proved.")),
+              "Convergence is proved too: for every scalar type with a transitive well-founded '<' some sweep count k exists "
+              "beyond which every nsweep returns the same grid bit for bit (2D and 3D); irreflexivity, transitivity and "
+              "well-foundedness of IEEE '<' are proved for Lean's Float from its logical model, so both clauses hold "
+              "unconditionally for the double instance of the model that the correspondence check ties to the code. "
+              "'Single digits in practice' is measured.")),
     "C11": dict(
         category="proof", design_ref="DESIGN.md §8 C11",
         technique="Lean 4 theorems (parametric congruence for the flag, real-arithmetic unit-norm lemma) + AST schema facts + with/without-flag runs of the real code (interpreter and JIT)",
